@@ -227,7 +227,12 @@ def build_node(rt, nd, prefix):
         f = _mk_callable(rt, path, nd, "call")
         data = nd["outputs"][: nd["ndata"]]
         out = None if not data else (data[0] if len(data) == 1 else tuple(data))
-        node = FunctionNode(f, name=nd["name"], output_name=out, cache=nd["cache"], emit=emit, wait_for=wait_for)
+        if emit and nd.get("emit_renamed"):
+            # the signal names are given to the node by a RENAME (with_outputs) after construction
+            node = FunctionNode(f, name=nd["name"], output_name=out, cache=nd["cache"], emit=tuple(e + "_0" for e in emit), wait_for=wait_for)
+            node = node.with_outputs({e + "_0": e for e in emit})
+        else:
+            node = FunctionNode(f, name=nd["name"], output_name=out, cache=nd["cache"], emit=emit, wait_for=wait_for)
         return _rename_inputs(node, nd)
     if kind == "interrupt":
         f = _mk_callable(rt, path, nd, "handler")
